@@ -214,3 +214,30 @@ def replay_known(ctx, kf):
     r = impl_thl(w)
     ok, why = oracle_thl(w, r)
     return (not ok), why
+
+
+def search(ctx):
+    """a tie is broken without a concrete failing input: larger fresh inputs against an independent DP oracle"""
+    import time
+    from ..core import Finding
+    from . import c09
+    rng = ctx.rng
+    t0 = time.time()
+    budget = 150 if ctx.quick() else 900
+    n = 0
+    while time.time() - t0 < budget:
+        S = R.rand_shape(rng, rng.randint(3, 8))
+        case = {"S": S, "O": R.rand_otree(rng, rng.randint(3, 9), R.shape_leaves(S)), "costs": R.rand_costs(rng, plain=True)}
+        n += 1
+        ctx.evaluations += 1
+        try:
+            v0, s0 = c09.thl_result(case)
+        except Exception as e:
+            return Finding("search", case, {"error": type(e).__name__}, "(specification oracle)", False, f"reconcile_thl raised {type(e).__name__}")
+        m, opt = R.Oracle(case["S"]).best(case["O"], case["costs"])
+        got = float("inf") if v0 == R.INF else v0
+        if got != m or {json.dumps(x) for x in s0} != opt:
+            return Finding("search", case, [v0, s0], "(specification oracle)", False,
+                           f"reconcile_thl returns minimum {v0} with {len(s0)} optimal solutions; the true minimum is {m} with {len(opt)}")
+    ctx.notes.append(f"failing-input search: {n} fresh inputs, none violates the property")
+    return None
